@@ -86,6 +86,30 @@ def cand(c):
     return Candidate(dec(c[0]), c[1])
 
 
+class _ValueOnly:
+    def value(self):
+        return inf
+
+
+class _InfosOnly:
+    value = inf
+
+    def infos(self):
+        return set()
+
+
+NON_ENTRIES = (None, 3, Candidate(1, 1), _ValueOnly(), _InfosOnly())
+
+
+def err_of(e):
+    """Exceptions -> the enum of the model, by `isinstance` (what an `except IndexError:` of a caller sees): a
+    subclass of the exception the pinned code raises is the same answer."""
+    for cls in (IndexError, TypeError, AttributeError):
+        if isinstance(e, cls):
+            return {"err": cls.__name__}
+    return {"err": type(e).__name__}
+
+
 # ---------------------------------------------------------------------------
 # real code
 
@@ -147,7 +171,7 @@ def run_impl(case):
                 outs.append("entry" if isinstance(obj, EntryProxy) else "proxy")
             except Exception as e:
                 slots.pop(op[1], None)
-                outs.append({"err": type(e).__name__})
+                outs.append(err_of(e))
             continue
         paths = [full(op[1])] + ([full(op[2])] if name in ("eqcell", "combine") else [])
         if any(p is None for p in paths):
@@ -189,7 +213,13 @@ def run_impl(case):
             elif name == "contains":
                 out = {"b": op[2] in chain(op[1])}
             elif name == "eq":
-                out = {"b": bool(chain(op[1]) == Entry(dec(op[2]), list(op[3])))}
+                obj = chain(op[1])
+                out = {"b": bool(obj == Entry(dec(op[2]), list(op[3])))}
+                # "== other" for an `other` that is not an entry (no callable value() or no callable infos()) is
+                # False (model: the `.entry, .proxy` case of eqCell); the comparison never looks at the table
+                odd = [type(x).__name__ for x in NON_ENTRIES if obj == x or x == obj]
+                if odd:
+                    out["equal_to_non_entries"] = odd
             elif name == "eqcell":
                 a = chain(op[1])
                 b = chain(op[2])
@@ -206,7 +236,7 @@ def run_impl(case):
             else:
                 raise ValueError(name)
         except Exception as e:  # mapped to the enum of the model
-            out = {"err": type(e).__name__}
+            out = err_of(e)
         outs.append(out)
     return outs, compiled
 
@@ -304,9 +334,10 @@ def spec_check(case, compiled, outs):
         if name == "len" and out["n"] != (len(tags) if r == "all" else min(1, len(tags)) if r == "any" else 0):
             return i, f"len() = {out['n']} under '{r}'; {what}"
         if name == "info":
+            # info(): "Get ANY info tag associated to the current value" (EntryProtocol): WHICH retained tag is
+            # returned is the implementation's choice, also under 'all' (the pinned code takes the least)
             exp_ok = (
-                out["tag"] == (min(tags) if tags else None) if r == "all"
-                else (out["tag"] in tags if tags else out["tag"] is None) if r == "any"
+                (out["tag"] in tags if tags else out["tag"] is None) if r in ("all", "any")
                 else out["tag"] is None
             )
             if not exp_ok:
@@ -349,6 +380,44 @@ def spec_check(case, compiled, outs):
 TAG_DEPENDENT = ("infos", "info", "len", "iter", "eq", "eqcell", "combine")
 
 
+def norm_prefix(dims, ks):
+    """Normalised address of a chain SHORTER than the table is deep, or None when a key is invalid."""
+    if len(ks) >= len(dims):
+        return None
+    return norm(dims[: len(ks)], ks) if ks else ()
+
+
+def written_below(case, compiled, upto, pre):
+    """Keys of the axis below the (normalised) prefix `pre` under which some cell received a batch with a
+    finite candidate before operation `upto`: these MUST be reported (C16_table_keys_written)."""
+    out = set()
+    for op in compiled[:upto]:
+        if op[0] in ("set", "update"):
+            a = norm(case["dims"], op[1])
+            batch = [op[2]] if op[0] == "set" else op[2]
+            if a is not None and a[: len(pre)] == pre and any(dec(c[0]) not in (inf, -inf) for c in batch):
+                out.add(a[len(pre)])
+    return out
+
+
+def keys_free_choice(case, compiled, i, op, o, mo):
+    """Which never-written dictionary keys exist (the pinned code creates a key whenever it walks through it, also
+    on a read) is neither part of the property nor of the docstrings ("the set of keys defined in the next
+    dimension").  Accepted: keys() / iteration / `in` of a dictionary axis anywhere between the WRITTEN keys
+    (C16_table_keys_written) and the model's ADDRESSED keys (C16_table_keys_sound)."""
+    dims = case["dims"]
+    if op[0] in ("keys", "iter", "contains"):
+        pre = norm_prefix(dims, op[1])
+        if pre is None or dims[len(pre)] != "d" or not isinstance(o, dict) or not isinstance(mo, dict):
+            return False
+        must = written_below(case, compiled, i, pre)
+        if "keys" in o and "keys" in mo:
+            return must <= set(o["keys"]) <= set(mo["keys"])
+        if "b" in o and "b" in mo:  # `k in ...`: free only for an addressed, never-written key
+            return op[2] not in must and mo["b"] is True and o["b"] is False
+    return False
+
+
 def compare(case, compiled, outs, mouts, mouts_all=None):
     """Index of the first operation on which implementation and model differ, or None.  Under 'any'
     the implementation may keep ANY tag of an optimal candidate, so a tag-dependent output that
@@ -365,6 +434,11 @@ def compare(case, compiled, outs, mouts, mouts_all=None):
     for i, (op, o, mo) in enumerate(zip(compiled, outs, mouts)):
         mo = canon_model(mo)
         if o == mo:
+            continue
+        if (op[0] == "info" and isinstance(o, dict) and isinstance(mo, dict) and "tag" in o and "tag" in mo
+                and (o["tag"] is None) == (mo["tag"] is None)):
+            continue  # another retained tag than the model's least one: judged by spec_check (membership)
+        if keys_free_choice(case, compiled, i, op, o, mo):
             continue
         if case["retain"] == "any" and op[0] in TAG_DEPENDENT and op[0] != "len":
             o_err = isinstance(o, dict) and "err" in o
@@ -427,7 +501,7 @@ def alphabet(dims):
 def gen_exhaustive(ctx):
     maxlen = ctx.budget(3, 4)
     shapes = SHAPES[: ctx.budget(6, 10)]
-    pols = [("min", "all"), ("min", "any"), ("min", "none"), ("max", "all"), ("max", "any")]
+    pols = [("min", "all"), ("min", "any"), ("min", "none"), ("max", "all"), ("max", "any"), ("max", "none")]
     for si, dims in enumerate(shapes):
         alpha = alphabet(dims)
         for n in range(1, maxlen + 1):
@@ -445,9 +519,9 @@ def rand_key(rng, d, valid):
         if valid or rng.random() < 0.9:
             return rng.choice(["s0", "s1", "s2", 0, 1, -1])
         return rng.choice(["s3", 5])
-    if valid:
+    if valid and d > 0:
         return rng.randrange(-d, d)
-    return rng.choice([d, -d - 1, d + 3, "s0"])
+    return rng.choice([d, -d - 1, d + 3, "s0"])  # ListDimension(0) has no valid index at all
 
 
 def rand_path(rng, dims, p_bad=0.12):
@@ -466,13 +540,15 @@ def rand_path(rng, dims, p_bad=0.12):
 def rand_cand(rng):
     if rng.random() < 0.6:
         return list(rng.choice(CANDS))
-    return [rng.choice([0, 1, 2, 2, 1, "inf", "-inf"]), rng.choice([None, 1, 2, 3])]
+    return [rng.choice([0, 1, 2, 2, 1, "inf", "-inf", -1, 5]), rng.choice([None, 1, 2, 3])]
 
 
 def rand_case(ctx):
     rng = ctx.rng
     nd = rng.choice([1, 2, 2, 3])
     dims = [rng.choice(["d", "d", 1, 2, 3]) for _ in range(nd)]
+    if rng.random() < 0.03:
+        dims[rng.randrange(nd)] = 0  # an empty list axis: every chain through it is an IndexError
     m = rng.choice(["min", "min", "max"])
     r = rng.choice(["all", "all", "any", "none"])
     ops = []
@@ -496,7 +572,8 @@ def rand_case(ctx):
             ops.append([rng.choice(READS + ("value", "infos", "infos")), path()])
         elif x < 0.82:
             p = rand_path(rng, dims, 0.05)
-            ops.append([rng.choice(["keys", "iter"]), p[: rng.randrange(len(dims))]])
+            # (mostly a strict prefix; sometimes the complete chain -- `keys` of an EntryProxy -- or a longer one)
+            ops.append([rng.choice(["keys", "iter"]), p[: rng.randrange(len(dims) + (2 if rng.random() < 0.2 else 0))]])
         elif x < 0.87:
             p = rand_path(rng, dims, 0.05)
             ops.append(["contains", p[: rng.randrange(len(dims) + 1)], rand_key(rng, rng.choice(dims), rng.random() < 0.8)])
@@ -505,7 +582,7 @@ def rand_case(ctx):
             ops.append(["hold", nslots, p[: rng.randint(0, len(dims))]])
             nslots += 1
         elif x < 0.94:
-            ops.append(["eq", path(), rng.choice([0, 1, 2, "inf"]), rng.sample([1, 2, 3], rng.randint(0, 2))])
+            ops.append(["eq", path(), rng.choice([0, 1, 2, "inf", "-inf", -1]), rng.sample([1, 2, 3], rng.randint(0, 2))])
         elif x < 0.96:
             ops.append(["eqcell", path(), path()])
         else:
@@ -722,6 +799,8 @@ def run_entry_api(case):
     try:
         if case["kind"] == "entry_api":
             e = build_entry(case)
+            if any(e == x or x == e for x in NON_ENTRIES):
+                return {"err": "EqualToNonEntry"}  # reported as a difference with the model
             return {"value": enc(e.value()), "infos": sorted(e.infos()), "info": e.info(), "len": len(e),
                     "inf": bool(e.is_infinite()),
                     "iter": sorted(([enc(c.value), c.info] for c in e), key=lambda c: c[1]),
@@ -730,7 +809,7 @@ def run_entry_api(case):
         e = ea.combine(eb, combinator(case["comb"], case["a"]["merge"]))
         return {"value": enc(e.value()), "infos": sorted(e.infos())}
     except Exception as e:
-        return {"err": type(e).__name__}
+        return err_of(e)
 
 
 def entry_api_bad(c, io):
@@ -739,7 +818,7 @@ def entry_api_bad(c, io):
         return False
     tags = io["infos"]
     want_eq = io["value"] == c["eq"][0] and tags == sorted(set(c["eq"][1]))
-    return (io["info"] != (min(tags) if tags else None) or io["len"] != len(tags)
+    return ((io["info"] not in tags if tags else io["info"] is not None) or io["len"] != len(tags)
             or io["iter"] != [[io["value"], t] for t in tags] or io["eq"] != want_eq
             or io["inf"] != (io["value"] in ("inf", "-inf")))
 
@@ -815,7 +894,11 @@ def check_entry_api(ctx, res, n):
             same = (io["value"] == mo["value"] and io["len"] == mo["len"] and io["inf"] == mo["inf"]
                     and set(io["infos"]) <= set(malls[k]["infos"]))
         else:
-            same = io == mo
+            # WHICH retained tag info() returns is free (entry_api_bad has checked that it is one of infos())
+            same = ({k: v for k, v in io.items() if k != "info"} == {k: v for k, v in mo.items() if k != "info"}
+                    and (io.get("info") is None) == (mo.get("info") is None))
+            if "info" in io and io.get("info") != mo.get("info"):
+                res.dist["entry_api/info()-is-not-the-least-tag"] += 1
         if not same:
             res.tie_broken("Entry API model vs implementation", c, mo, io)
 
